@@ -272,7 +272,14 @@ def gen_args(op: str, r, world: Dict[str, Any], hostile: bool = True) -> Dict[st
             return {"name": gen.name_of(r, r.randrange(0, 41))}
         if x < 0.9:
             # byte length straddling 32
-            pool = r.choice(["hebrew", "accented", "cjk", "emoji"])
+            pool = r.choice(["hebrew", "accented", "cjk", "emoji", "composable", "composable"])
+            if pool == "composable":
+                # letters followed by combining marks (as typed on some keyboards): 3 bytes a glyph as given, 2 after composition -
+                # the caller's bytes are what counts, for the length limit and on the wire
+                glyphs = ["e\u0301", "o\u0308", "a\u030a", "n\u0303", "u\u0308", "c\u0327", "E\u0300"]
+                name = "".join(r.choice(glyphs) for _ in range(r.choice([9, 10, 10, 11, 11, 11, 12, 14])))
+                name += "".join(r.choice("abc xyz") for _ in range(r.randrange(0, 4)))
+                return {"name": name}
             n = {"hebrew": 16, "accented": 16, "cjk": 10, "emoji": 8}[pool] + r.randrange(-1, 2)
             return {"name": gen.name_of(r, n, pool)}
         if r.random() < 0.4:
